@@ -14,17 +14,18 @@ import (
 
 // Trace10 is one 1-D transmission or one writer-side check.
 type Trace10 struct {
-	Kind    string `json:"kind"`             // "writer" | "writer-wrongcheck" | "reader" | "addon" | "c128" | "c93" | "c128writer" | "c93writer"
-	Sym     string `json:"sym"`              // ean13 | ean8 | upca | upce | code128 | code93
-	Content string `json:"content"`          // digits (or text for code128/93 writer checks)
-	Pos     int    `json:"pos,omitempty"`    // substitution position (-1: none)
-	Repl    int    `json:"repl,omitempty"`   // replacement digit / symbol value
-	Vals    []int  `json:"vals,omitempty"`   // Code 128 / Code 93 symbol values (start..check), before the fault
-	Addon   string `json:"addon,omitempty"`  // add-on digits
-	Par     int    `json:"parity,omitempty"` // add-on parity pattern
-	Scale   int    `json:"scale,omitempty"`  // 0: row handed to DecodeRow; >0: rendered image at this scale
-	Hints   int    `json:"hints,omitempty"`  // optional decode hints passed to the reader, bit mask: 1 TRY_HARDER, 2 result-point callback, 4 ALLOWED_EAN_EXTENSIONS {0,2,5}, 8 POSSIBLE_FORMATS (all six), 16 ASSUME_GS1
-	FixK    bool   `json:"fixk,omitempty"`   // Code 93: after the substitution, K is recomputed over data + C (only C fails to verify)
+	Kind     string `json:"kind"`               // "writer" | "writer-wrongcheck" | "reader" | "addon" | "c128" | "c93" | "c128writer" | "c93writer"
+	Sym      string `json:"sym"`                // ean13 | ean8 | upca | upce | code128 | code93
+	Content  string `json:"content"`            // digits (or text for code128/93 writer checks)
+	Pos      int    `json:"pos,omitempty"`      // substitution position (-1: none)
+	Repl     int    `json:"repl,omitempty"`     // replacement digit / symbol value
+	Vals     []int  `json:"vals,omitempty"`     // Code 128 / Code 93 symbol values (start..check), before the fault
+	Addon    string `json:"addon,omitempty"`    // add-on digits
+	Par      int    `json:"parity,omitempty"`   // add-on parity pattern
+	Scale    int    `json:"scale,omitempty"`    // 0: row handed to DecodeRow; >0: rendered image at this scale
+	Hints    int    `json:"hints,omitempty"`    // optional decode hints passed to the reader, bit mask: 1 TRY_HARDER, 2 result-point callback, 4 ALLOWED_EAN_EXTENSIONS {0,2,5}, 8 POSSIBLE_FORMATS (all six), 16 ASSUME_GS1
+	HistOnly bool   `json:"histonly,omitempty"` // the call only makes history on the reader instance (hints an honest reader may obey: ASSUME_CODE_39_CHECK_DIGIT=false); its outcome is not judged
+	FixK     bool   `json:"fixk,omitempty"`     // Code 93: after the substitution, K is recomputed over data + C (only C fails to verify)
 	// Prev lists symbols read earlier on the same reader instances (instance-reuse history)
 	Prev []*Trace10 `json:"prev,omitempty"`
 }
@@ -286,6 +287,7 @@ func toArray(row []bool, quiet int) *gozxing.BitArray {
 }
 
 type readOut struct {
+	held   *gozxing.Result
 	format gozxing.BarcodeFormat
 	text   string
 	ext    string
@@ -319,10 +321,46 @@ func hintsOf(tr *Trace10) map[gozxing.DecodeHintType]interface{} {
 	if tr.Hints&16 != 0 {
 		h[gozxing.DecodeHintType_ASSUME_GS1] = true
 	}
+	if tr.Hints&32 != 0 {
+		h[gozxing.DecodeHintType_ASSUME_CODE_39_CHECK_DIGIT] = false
+	}
+	if tr.Hints&64 != 0 {
+		h[gozxing.DecodeHintType_ASSUME_CODE_39_CHECK_DIGIT] = true
+	}
 	return h
 }
 
+// A Result handed to the caller must stay what it was: the text it showed when
+// it was returned had verified check characters. heldResults remembers, per
+// reader instance, the last Result returned and a private copy of its text;
+// staleNote is set when a later call on the same reader changed it.
+type heldResult struct {
+	res  *gozxing.Result
+	text string
+}
+
+var heldResults = map[gozxing.Reader]*heldResult{}
+var staleNote string
+
+func takeStale() *fail {
+	if staleNote == "" {
+		return nil
+	}
+	f := &fail{"reader/result-changes-later", staleNote}
+	staleNote = ""
+	return f
+}
+
 func read(rd gozxing.Reader, row []bool, scale int) (o readOut) {
+	defer func() {
+		if h := heldResults[rd]; h != nil && h.res.GetText() != h.text {
+			staleNote = fmt.Sprintf("a Result returned earlier by this reader instance showed %q when it was returned and shows %q after a later call on the same reader", h.text, h.res.GetText())
+			delete(heldResults, rd)
+		}
+		if o.held != nil {
+			heldResults[rd] = &heldResult{o.held, string(append([]byte(nil), o.text...))}
+		}
+	}()
 	enter("reader/hang", "reader/hang", curTrace10, "1-D reader did not return")
 	defer leave()
 	defer func() {
@@ -362,6 +400,7 @@ func read(rd gozxing.Reader, row []bool, scale int) (o readOut) {
 		o.err = fmt.Errorf("nil result and nil error")
 		return
 	}
+	o.held = res
 	o.text = res.GetText()
 	o.format = res.GetBarcodeFormat()
 	o.raw = res.GetRawBytes()
@@ -386,6 +425,8 @@ func execChain10(tr *Trace10, probe func(string)) (string, *fail) {
 	}
 	old := readerCache
 	readerCache = map[string]gozxing.Reader{}
+	heldResults = map[gozxing.Reader]*heldResult{}
+	staleNote = ""
 	defer func() { readerCache = old }()
 	for _, p := range tr.Prev {
 		q := *p
@@ -395,6 +436,9 @@ func execChain10(tr *Trace10, probe func(string)) (string, *fail) {
 	q := *tr
 	q.Prev = nil
 	out, f := exec10(&q, probe)
+	if st := takeStale(); st != nil && f == nil {
+		f = st
+	}
 	if f != nil {
 		f.class = "reused/" + f.class
 		f.detail += fmt.Sprintf(" [the same reader instance had read %d other symbol(s) before]", len(tr.Prev))
@@ -506,6 +550,64 @@ func exec10(tr *Trace10, probe func(string)) (string, *fail) {
 			return out, multiMisread
 		}
 		return out, f
+	case "parity":
+		// Content: the digits drawn (EAN-13: six left + six right; UPC-E: six),
+		// Par: the parity pattern of the left half (bit 5 = first digit, 1 = G).
+		// The pattern encodes the EAN-13 first digit / the UPC-E number system
+		// and check digit; 54 / 44 of the 64 patterns encode nothing.
+		d := digitsOf(tr.Content)
+		var row ref.Row
+		var carried []int
+		meaning := false
+		if tr.Sym == "ean13" {
+			if len(d) != 12 {
+				return "skip:bad length", nil
+			}
+			row = ref.EAN13WithParity(d, tr.Par)
+			if fd, ok := ref.EAN13ParityMeaning(tr.Par); ok {
+				meaning = true
+				carried = append([]int{fd}, d...)
+			}
+		} else {
+			if len(d) != 6 {
+				return "skip:bad length", nil
+			}
+			row = ref.UPCEWithParity(d, tr.Par)
+			if ns, chk, ok := ref.UPCEParityMeaning(tr.Par); ok {
+				meaning = true
+				carried = append(append([]int{ns}, d...), chk)
+			}
+		}
+		probe("fault.parity_pattern")
+		o := read(newReader(tr.Sym), row, tr.Scale)
+		what := fmt.Sprintf("%s symbol drawing %s with left-half parity pattern %06b (scale %d)", tr.Sym, tr.Content, tr.Par, tr.Scale)
+		if o.pan != nil {
+			return "", &fail{"reader/panic", what + fmt.Sprintf(": reader panicked: %v", o.pan)}
+		}
+		if o.err != nil {
+			if !isReaderErr(o.err) {
+				return "", &fail{"reader/error-kind", what + fmt.Sprintf(": non-reader error %T %v", o.err, o.err)}
+			}
+			if meaning && verifies(tr.Sym, carried) {
+				if _, isCk := o.err.(gozxing.ChecksumException); isCk {
+					return "", &fail{"reader/rejects-valid-check", what + ": carries " + strOf(carried) + ", whose check digit verifies; the reader reports a checksum error"}
+				}
+				probe("probe.valid_symbol_not_read(outside_C10)")
+				return "skip:valid symbol not read", nil
+			}
+			probe("probe.invalid_symbol_rejected")
+			return "ok", nil
+		}
+		switch {
+		case !meaning:
+			return "", &fail{"reader/accepts-unassigned-parity", what + fmt.Sprintf(": the pattern encodes no digit, so the symbol carries no number whose check could verify; read as %q", o.text)}
+		case !verifies(tr.Sym, carried):
+			return "", &fail{"reader/accepts-failed-check", what + fmt.Sprintf(": carries %s, whose check digit fails; read as %q", strOf(carried), o.text)}
+		case o.text != strOf(carried):
+			return "", &fail{"reader/misreads-parity", what + fmt.Sprintf(": carries %s, read as %q", strOf(carried), o.text)}
+		}
+		probe("probe.valid_symbol_read")
+		return "ok", nil
 	case "addon":
 		base := digitsOf(tr.Content)
 		ad := digitsOf(tr.Addon)
@@ -670,6 +772,10 @@ func execChar(tr *Trace10, probe func(string)) (string, *fail) {
 	}
 	sym := map[string]string{"c128": "code128", "c93": "code93", "c39": tr.Sym}[tr.Kind]
 	o := read(newReader(sym), charRow(tr.Kind, vals), tr.Scale)
+	if tr.HistOnly {
+		probe("probe.history_only_call")
+		return "ok:history", nil
+	}
 	ok := charVerifies(tr.Kind, vals)
 	what := fmt.Sprintf("%s symbol %v (substitution pos %d -> %d, scale %d)", sym, vals, tr.Pos, tr.Repl, tr.Scale)
 	if o.pan != nil && tr.Kind == "c39" && ok && !faulted {
@@ -877,6 +983,10 @@ func jobs10(tier string) []job10 {
 	for i := 0; i < ns/6+4; i++ {
 		j = append(j, job10{kind: "addon"})
 	}
+	// parity-encoded digits: all 64 left-half parity patterns of EAN-13 and UPC-E
+	for i := 0; i < ns/10+4; i++ {
+		j = append(j, job10{kind: "parity"})
+	}
 	return j
 }
 
@@ -963,7 +1073,7 @@ func C10() *kit.Spec {
 			"bar/space row medium, rendering":                               "simulated (harness)",
 			"onedref (check digits, patterns, symbol constructor)":          "reference model / stub sender (harness)",
 		},
-		FaultKinds:  []string{"none(control)", "digit", "char", "char+k_consistent", "addon"},
+		FaultKinds:  []string{"none(control)", "digit", "char", "char+k_consistent", "addon", "parity_pattern"},
 		SimTimeNote: "none: no timers; logical steps = symbols transmitted",
 		NumRuns:     func(tier string) int { return len(jobs(tier)) },
 		Run: func(c *kit.Ctx) {
@@ -972,6 +1082,8 @@ func C10() *kit.Spec {
 			watchCtx = c
 			probe := func(p string) { c.Count(p, 1) }
 			readerCache = map[string]gozxing.Reader{}
+			heldResults = map[gozxing.Reader]*heldResult{}
+			staleNote = ""
 			var hist []*Trace10
 			// optional hints an application may pass: the same for a whole job
 			jobHints := 0
@@ -979,24 +1091,29 @@ func C10() *kit.Spec {
 				jobHints = r.Intn(32)
 			}
 			do := func(tr *Trace10, hash bool) bool {
-				if tr.Kind == "reader" || tr.Kind == "addon" || tr.Kind == "c128" || tr.Kind == "c93" || tr.Kind == "c39" {
+				if tr.HistOnly {
+					// keeps the hints it was given
+				} else if tr.Kind == "reader" || tr.Kind == "addon" || tr.Kind == "parity" || tr.Kind == "c128" || tr.Kind == "c93" || tr.Kind == "c39" {
 					tr.Hints = jobHints
 					if jobHints != 0 {
 						probe("probe.reader_given_optional_hints")
 					}
 				}
 				out, f := exec10(tr, probe)
+				if st := takeStale(); st != nil && f == nil {
+					f = st
+				}
 				if f != nil && strings.Contains(f.class, "misread-verifies") {
 					// a misread of a located symbol: reported (known finding or
 					// violation, by class), the job goes on
 					report10(c, tr, f)
 					f = nil
 				}
-				if f != nil && (tr.Kind == "reader" || tr.Kind == "addon" || tr.Kind == "c128" || tr.Kind == "c93" || tr.Kind == "c39") {
+				if f != nil && (tr.Kind == "reader" || tr.Kind == "addon" || tr.Kind == "parity" || tr.Kind == "c128" || tr.Kind == "c93" || tr.Kind == "c39") {
 					reportWithHistory(c, tr, f, hist)
 					return false
 				}
-				if tr.Kind == "reader" || tr.Kind == "addon" || tr.Kind == "c128" || tr.Kind == "c93" || tr.Kind == "c39" {
+				if tr.Kind == "reader" || tr.Kind == "addon" || tr.Kind == "parity" || tr.Kind == "c128" || tr.Kind == "c93" || tr.Kind == "c39" {
 					if len(hist) < 400 {
 						cp := *tr
 						hist = append(hist, &cp)
@@ -1067,7 +1184,11 @@ func C10() *kit.Spec {
 						curTrace10 = tr
 						o := read(rd, ref.UPCE(digitsOf(want)), 0)
 						cnt++
-						if _, f := judgeUPCEAN(tr, o, want, true, probe); f != nil {
+						_, f := judgeUPCEAN(tr, o, want, true, probe)
+						if st := takeStale(); st != nil && f == nil {
+							f = st
+						}
+						if f != nil {
 							reportWithHistory(c, tr, f, sweepHist)
 							return
 						}
@@ -1199,6 +1320,14 @@ func C10() *kit.Spec {
 						return
 					}
 					for pos := 0; pos < len(vals); pos++ {
+						if r.Chance(1, 3) {
+							// the application once told this reader, for one call, not to expect a
+							// check character (or to expect one): that call's business only
+							hb := []int{32, 64}[r.Intn(2)]
+							if !do(&Trace10{Kind: "c39", Sym: sym, Vals: vals, Pos: -1, Scale: scale, HistOnly: true, Hints: hb}, false) {
+								return
+							}
+						}
 						for v := 0; v < 43; v++ {
 							if v == vals[pos] {
 								continue
@@ -1292,6 +1421,19 @@ func C10() *kit.Spec {
 							if !do(&Trace10{Kind: kind, Sym: sym, Vals: vals, Pos: pos, Repl: v, Scale: scale, FixK: true}, true) {
 								return
 							}
+						}
+					}
+				}
+			case "parity":
+				for _, sym := range []string{"ean13", "upce"} {
+					n := 12
+					if sym == "upce" {
+						n = 6
+					}
+					content := strOf(randDigits(r, n))
+					for par := 0; par < 64; par++ {
+						if !do(&Trace10{Kind: "parity", Sym: sym, Content: content, Par: par, Pos: -1}, true) {
+							return
 						}
 					}
 				}
